@@ -406,6 +406,14 @@ def gen_cases(tier, seed):
         for lvl in ("MV", "HV", "LV"):
             for n in (96, 200):
                 yield {"k": "plw", "scenario": "scenario_A.json", "n": n, "level": lvl, "op": "opX", "file": f}
+    # several connectors: same / different voltage levels, served by the same / different grid operators
+    two_ops = {"opY": plwB, "opX": plwA, "opZ": {"all": {"start": "2018-01-01", "end": "2018-12-31", "windows": {
+        "MV": [["03:00", "04:00"]], "HV": [["03:30", "05:00"]], "LV": [["10:00", "10:30"]]}}}}
+    for gcs in ([("MV", "opX"), ("MV", "opZ")], [("MV", "opZ"), ("MV", "opX"), ("MV", "opY")],
+                [("HV", "opX"), ("MV", "opX"), ("HV", "opZ")], [("LV", "opY"), ("LV", "opZ"), ("MV", "opZ"), ("MV", "opX")]):
+        for n in (96, 200):
+            yield {"k": "plw", "scenario": "scenario_A.json", "n": n, "level": gcs[0][0], "op": gcs[0][1],
+                   "file": two_ops, "gcs": gcs}
 
     # ---- seeded part
     def rtime(grid=True):
@@ -692,6 +700,12 @@ def eval_case(case):
         for gc in j["components"]["grid_connectors"].values():
             gc["voltage_level"] = case["level"]
             gc["grid_operator"] = case["op"]
+        cfg = {gid: (case["level"], case["op"]) for gid in j["components"]["grid_connectors"]}
+        for i, (lv, op) in enumerate(case.get("gcs", [])[1:]):
+            gid = "GCX%d" % i
+            j["components"]["grid_connectors"][gid] = {"max_power": 100, "voltage_level": lv, "grid_operator": op,
+                                                       "cost": {"type": "fixed", "value": 0.3}}
+            cfg[gid] = (lv, op)
         with tempfile.TemporaryDirectory(prefix="c15_") as tmp:
             path = os.path.join(tmp, "time_windows.json")
             with open(path, "w", encoding="utf-8") as fh:
@@ -700,20 +714,23 @@ def eval_case(case):
             with warnings.catch_warnings(), contextlib.redirect_stdout(io.StringIO()):
                 warnings.simplefilter("ignore")
                 sc.run("peak_load_window", {"time_windows": path})
-        seasons = [{"s": x["start"], "e": x["end"],
-                    "w": None if "windows" not in x else
-                    {lv: [[us_of(dtm.time.fromisoformat(a)), us_of(dtm.time.fromisoformat(b))] for a, b in ws]
-                     for lv, ws in x["windows"].items()}} for x in case["file"][case["op"]].values()]
+        def seasons_of(op):
+            return [{"s": x["start"], "e": x["end"],
+                     "w": None if "windows" not in x else
+                     {lv: [[us_of(dtm.time.fromisoformat(a)), us_of(dtm.time.fromisoformat(b))] for a, b in ws]
+                      for lv, ws in x["windows"].items()}} for x in case["file"][op].values()]
         lines, impls = [], []
         nontrivial = False
         for gcid, sched_w in sc.gcWindowSchedule.items():
+            level, op = cfg[gcid]
+            seasons = seasons_of(op)
             dts = [sc.start_time + i * sc.interval for i in range(len(sched_w))]
-            lines.append("window %s %s %s" % (case["level"], w_list(seasons, lambda x: w_season(x, int)), w_list(dts, w_dt)))
+            lines.append("window %s %s %s" % (level, w_list(seasons, lambda x: w_season(x, int)), w_list(dts, w_dt)))
             impls.append("w" + "".join("1" if r is True else "0" if r is False else "?" for r in sched_w))
             if sc.step_i != case["n"] or len(sched_w) != case["n"]:
                 viol.append(("series", "C15:window_schedule_length", "%s: %d entries, step_i=%d, n_intervals=%d"
                              % (gcid, len(sched_w), sc.step_i, case["n"])))
-            bad = [(d, r) for d, r in zip(dts, sched_w) if r is not oracle_window(d, seasons, case["level"])]
+            bad = [(d, r) for d, r in zip(dts, sched_w) if r is not oracle_window(d, seasons, level)]
             if bad:
                 viol.append(("series", "C15:window_schedule_entry", "%s: %d of %d steps differ; first %s is %s"
                              % (gcid, len(bad), len(dts), bad[0][0].isoformat(), bad[0][1])))
